@@ -18,7 +18,7 @@ META = {
                    "name == \"solidity\" of the pragma directive, for the first such directive. R09.none: without a version every reporting site is unreachable "
                    "(and nothing panics: C04). R09.pattern: the require/last-argument/string-literal pattern and the >= 32 threshold are checked by C05-C08's spec comparison.",
     "assumptions": ["PartialOrd on (i32,i32,i32) is lexicographic (std contract)", "the regex extraction of the triple from the pragma text is not decided"],
-    "floors": {"R09.formula": 4, "R09.compl": 1, "R09.pragma": 2, "R09.none": 4},
+    "floors": {"R09.formula": 4, "R09.compl": 1, "R09.pragma": 2, "R09.none": 4, "R09.pattern.must": 4, "R09.pattern.mustnot": 4},
 }
 
 VERSION_FN = "analyzer::utils::get_solidity_version_from_source_unit"
@@ -145,6 +145,21 @@ def run(ctx, crate):
         neither = [v for v in G if not gates["safe_math_pre_080"](v) and not gates["safe_math_post_080"](v)]
         obs.append(Ob("R09.compl", "safe_math", "pre and post are complementary", not both and not neither,
                       found="both on %s, neither on %s" % (both[:3], neither[:3]) if (both or neither) else "complementary on %d triples" % len(G)))
+    # ---------------- R09.pattern: the structural pattern of each gated detector against its spec (DESIGN 8.5)
+    import summary
+    from rules import speccmp
+    from rules import detectors as D
+    spec = speccmp.load_spec()
+    sm = summary.Summ(crate)
+    d = D.Dispatch(crate, "optimizations")
+    for variant, name in (("SafeMathPre080", "safe_math_pre_080"), ("SafeMathPost080", "safe_math_post_080"), ("StringErrors", "string_errors"),
+                          ("ShortRevertString", "short_revert_string")):
+        s = d.table.get(variant) if d.ok else None
+        if s is None or name not in spec:
+            obs.append(Ob("R09.pattern.must", D.ANALYZE["optimizations"], "%s is dispatched and specified" % name, False))
+            continue
+        body = crate.bodies.get(s.resolved) or crate.bodies.get(s.path)
+        obs += speccmp.compare("R09.pattern", crate, sm, body, spec[name])
     # ---------------- R09.pragma
     vb = crate.bodies.get(VERSION_FN)
     if vb is None:
